@@ -30,6 +30,9 @@ func init() {
 		ruleShortWrite(c, "C01.R14")
 		ruleK5(c, "C01.R15")
 		ruleOkResults(c, "C01.R16")
+		// an operation is one transaction: a crash between two commits of one request shows it in part
+		ruleT10(c, "C01.R19")
+		ruleObjGranularity(c, "C01.R20")
 		ruleNullSource(c, "C01.R17")
 		ruleRefused(c, "C01.R18")
 	}
